@@ -29,7 +29,7 @@ pub fn run<const B: usize, const L: usize>(ctx: &mut Ctx, plan: &Plan) {
     let fail = e.fail_at;
     let what = plan.codec.as_str();
     let mut observed = 0u32;
-    let mut gen_panic = |ctx: &mut Ctx, msg: String| {
+    let gen_panic = |ctx: &mut Ctx, msg: String| {
         ctx.violate("GEN-PANIC", format!("{what} Uint<{B}>: generator panicked although the entropy source did not fail: {msg}"));
     };
     match what {
